@@ -13,7 +13,7 @@ with tempfile.TemporaryDirectory(prefix="kaira_baseline_") as d:
     env = dict(os.environ); env.pop("KAIRA_VERIF", None)
     cmd = ["/venv/bin/python", "-m", "pytest", "-q", "-p", "no:cacheprovider", "--timeout=900", "--continue-on-collection-errors",
            "-n", jobs, f"--junitxml={xml}"] + args
-    p = subprocess.run(cmd, cwd="/repo", env=env, stdout=subprocess.PIPE, stderr=subprocess.STDOUT, text=True)
+    p = subprocess.run(cmd, cwd=os.environ.get("KAIRA_REPO", "/repo"), env=env, stdout=subprocess.PIPE, stderr=subprocess.STDOUT, text=True)
     print(p.stdout[-1500:])
     passed = set()
     for tc in ET.parse(xml).getroot().iter("testcase"):
@@ -28,13 +28,13 @@ if missing and not args:
         parts = cls.split(".")
         # find the module file
         for i in range(len(parts), 0, -1):
-            f = os.path.join("/repo", *parts[:i]) + ".py"
+            f = os.path.join(os.environ.get("KAIRA_REPO", "/repo"), *parts[:i]) + ".py"
             if os.path.exists(f):
-                ids.append("::".join([os.path.relpath(f, "/repo")] + parts[i:] + [name])); break
+                ids.append("::".join([os.path.relpath(f, os.environ.get("KAIRA_REPO", "/repo"))] + parts[i:] + [name])); break
     with tempfile.TemporaryDirectory(prefix="kaira_baseline_") as d:
         xml = os.path.join(d, "r.xml")
         subprocess.run(["/venv/bin/python", "-m", "pytest", "-q", "-p", "no:cacheprovider", "--timeout=900", f"--junitxml={xml}"] + ids,
-                       cwd="/repo", env=env, stdout=subprocess.PIPE, stderr=subprocess.STDOUT, text=True)
+                       cwd=os.environ.get("KAIRA_REPO", "/repo"), env=env, stdout=subprocess.PIPE, stderr=subprocess.STDOUT, text=True)
         for tc in ET.parse(xml).getroot().iter("testcase"):
             if not any(c.tag in ("failure", "error", "skipped") for c in tc):
                 passed.add(f"{tc.get('classname')}::{tc.get('name')}")
